@@ -33,6 +33,35 @@ def fam_digest(f) -> str:
     ).hexdigest()[:12]
 
 
+WORDS = ["read", "write", "open", "close", "send", "recv"]
+
+
+def naming(kind: int, n: int, seed: int) -> dict:
+    """Event names for the leaves A, B, ...: plain letters, ordinary words,
+    or an adversarial scheme in which some names are joins / prefixes of
+    others (`read`, `write`, `read_write`, `read write`, `readwrite`,
+    `read,write`): all are distinct event names."""
+    letters = [chr(65 + i) for i in range(n)]
+    if kind % 4 in (0, 3):
+        return {x: x for x in letters}
+    r = random.Random(seed)
+    if kind % 4 == 1:
+        w = r.sample(WORDS, n)
+        return dict(zip(letters, w))
+    a, b = r.sample(WORDS, 2)
+    pool = [a, b] + [a + sep + b for sep in ("_", " ", "", ",", "-")] + [
+        b + "_" + a, a + "_" + a]
+    names = [a, b] + r.sample(pool[2:], n - 2) if n > 2 else [a, a + "_" + a]
+    r.shuffle(names)
+    return dict(zip(letters, names))
+
+
+def rename(t, m):
+    if t[0] == "ev":
+        return ["ev", m[t[1]]]
+    return [t[0], [rename(c, m) for c in t[1]]]
+
+
 def _child(unit: dict) -> dict:
     core.silence_child_output()
     sm = seams_mod.Seams(uuid_seed=0)
@@ -47,6 +76,13 @@ def _child(unit: dict) -> dict:
     items = (explicit if explicit is not None
              else [(i, trees_of(unit["n"])[i]) for i in unit["indices"]])
     for i, t in items:
+        inv = None
+        if unit.get("naming"):
+            n_ev = len({x for f_ in gate_sem.fam(t) for x in f_})
+            m = naming(unit["naming"], n_ev,
+                       core.derive(unit["order_seed"], "names", i))
+            t = rename(t, m)
+            inv = {v: k for k, v in m.items()}
         sm.uuid_rng = random.Random(core.derive(unit["uuid_seed"], "tree", i))
         sm.clock_calls = 0
         sm.uuid_calls = 0
@@ -62,6 +98,12 @@ def _child(unit: dict) -> dict:
             pt = calculate_logic_gates(es)
             g = gate_sem.pfam(pt)
             rec["inferred"] = gate_sem.show_pt(pt)
+            if inv:
+                # report over the letters of the reference tree so that
+                # schedules with different namings stay comparable
+                rec["names"] = sorted(inv)
+                g = {frozenset(inv.get(x, x) for x in s_) for s_ in g}
+                f = {frozenset(inv.get(x, x) for x in s_) for s_ in f}
             rec["admitted"] = fam_digest(g)
             rec["sound"] = f <= g
             rec["exact"] = (f == g)
